@@ -69,7 +69,7 @@ def span_case(rng):
         if end == "drop_sub":
             ops += [f"drop_sub {j}", "run"]
     else:
-        ops += [rng.choice(["remote_close", f"force_close {j}", "run"]), "run"]
+        ops += [rng.choice(["remote_close", "remote_goaway", f"force_close {j}", "run"]), "run"]
     return ops
 
 
@@ -106,7 +106,7 @@ def random_case(rng, length):
         elif r < 0.86 and opened:
             ops.append(f"remote_reset {rng.randrange(opened)}")
         elif r < 0.88:
-            ops.append("remote_close")
+            ops.append(rng.choice(["remote_close", "remote_goaway"]))
         elif r < 0.92:
             ops.append(f"drop_sub {i}")
         elif r < 0.95:
@@ -139,6 +139,9 @@ def fixed_cases():
         # a protocol that shut down gets an inbound substream: error exit, the others are told
         ["conn ka=YY", "drop_rx 1", "remote_open 1 full", "run", "run"],
         ["conn ka=Y remote=refuse", "local_open 0", "run", "remote_close", "run"],
+        # graceful end of the remote (yamux go-away): the `None` arm of handle_yamux_substream
+        ["conn ka=YN", "remote_goaway", "run", "run"],
+        ["conn ka=Y", "remote_open 0 full", "run", "remote_goaway", "run"],
         ["conn ka=YYYYY"], ["run"], ["conn ka=Y", "bogus"],
     ]
 
@@ -316,11 +319,16 @@ def oracle_c09(case, out):
             if k not in target and t[2].isdigit() and int(t[2]) < n:
                 target[k] = int(t[2])
     other_cause = False
+    active = [True] * n     # the protocols' handles (all take the connection at `conn`)
+    paused_now = set()
+    oi_total = 0            # inbound substreams delivered, all protocols
+    any_uncertain = False
     uncertain = set()
     reset = set()
     proposal_known = {}
     n_open = 0
     received = [0] * n      # substreams delivered to protocol j
+    oi = [0] * n            # ... of which inbound
     dropped = [0] * n
     failed = [0] * n
     cmds = [0] * n          # OpenSubstream commands sent by protocol j
@@ -338,7 +346,7 @@ def oracle_c09(case, out):
         if d is None:
             continue
         t = op.split()
-        if t[0] in ("force_close", "remote_close", "drop_rx") and d["ret"] == "ok":
+        if t[0] in ("force_close", "remote_close", "remote_goaway", "drop_rx") and d["ret"] == "ok":
             other_cause = True
         if t[0] == "remote_open" and d["ret"].startswith("s"):
             proposal_known[n_open] = len(t) == 3 and t[2] == "full"
@@ -356,6 +364,13 @@ def oracle_c09(case, out):
             dropped[int(t[1])] += 1
         if t[0] in ("pause",):
             uncertain.add(int(t[1]))
+            any_uncertain = True
+        if t[0] == "remote_reset" and d["ret"] == "ok":
+            any_uncertain = any_uncertain or bool(proposal_known.get(int(t[1]))) if t[1].isdigit() else any_uncertain
+        if t[0] in ("downgrade", "drop_handle") and t[1].isdigit() and int(t[1]) < n and d["ret"] in ("ok", "none"):
+            active[int(t[1])] = False
+        if t[0] == "upgrade" and t[1].isdigit() and int(t[1]) < n:
+            active[int(t[1])] = d["ret"] == "active"
         # state BEFORE this operation decides whether an exit during it is allowed
         if t[0] == "run" and prev is not None and prev["loop"] == "run" and d["loop"] in ("ok", "err") and not other_cause:
             for j in range(n):
@@ -371,6 +386,19 @@ def oracle_c09(case, out):
                     v("closed-while-busy", f"the connection was closed by the idle mechanism (start() returned {d['loop']}) "
                       f"while keep-alive protocol {j} had {what}", i)
                     return bad
+        # (c) nothing at all keeps the connection: every handle downgraded or dropped, every open answered, every
+        # accepted inbound substream delivered or reset, no keep-alive protocol holds a substream (substreams held by
+        # ping-like protocols do not count), nothing paused: this `run` must end the loop
+        if t[0] == "run" and prev is not None and prev["loop"] == "run" and d["loop"] == "run" and not any_uncertain \
+                and not other_cause and not any(active):
+            live = [k for k in range(n_open) if k not in reset]
+            all_answered = all(cmds[j] == failed[j] + (received[j] - oi[j]) for j in range(n))
+            all_delivered = all(k in target for k in live) and oi_total == len(live) and acc_before == n_open
+            none_held = all(received[j] - dropped[j] == 0 for j in range(n) if ka[j] == "Y")
+            if all_answered and all_delivered and none_held:
+                v("idle-not-closed", "every protocol has let go of the connection, no substream of a keep-alive protocol is "
+                  "open or being opened and nothing is in flight, yet the connection task is still running after `run`", i)
+                return bad
         if t[0] == "run" and prev is not None and prev["loop"] == "run" and prev.get("strong") == "n" and d["loop"] == "run":
             v("idle-not-closed", "no strong sender of the command channel was left before `run`, yet the connection task "
               "is still running", i)
@@ -378,6 +406,8 @@ def oracle_c09(case, out):
         for k, msgs in d["p"].items():
             if k < n:
                 received[k] += sum(1 for m in msgs if m in ("Oi", "Oo"))
+                oi[k] += msgs.count("Oi")
+                oi_total += msgs.count("Oi")
                 failed[k] += msgs.count("X")
         if d.get("acc", "").isdigit():
             acc_before = int(d["acc"])
